@@ -1237,6 +1237,10 @@ func (fr *Frame) builtin(in ssa.Instruction, b *ssa.Builtin, com *ssa.CallCommon
 	case "copy":
 		return fr.builtinCopy(in, com, st)
 	case "delete":
+		if fr.con != nil && in != nil {
+			// deletes are addressable as sinks: `call delete #n requires E` with arg(0) = map, arg(1) = key
+			fr.pseudoSinkKind("delete", in, []TV{{T: fr.term(com.Args[0], st), Ty: com.Args[0].Type()}, {T: fr.term(com.Args[1], st), Ty: com.Args[1].Type()}}, st)
+		}
 		m := fr.term(com.Args[0], st)
 		mt := under(com.Args[0].Type()).(*types.Map)
 		ks, vs := c.sortOf(mt.Key()), c.sortOf(mt.Elem())
